@@ -155,6 +155,11 @@ def run(ctx):
                     ok = pv.depends_on_param(op_[0])
                     ctx.ob("Q4", k + "|object", ok, t["sp"], "the caller's object" if ok else "this lookup is made in another object than the one the caller named")
     ctx.floor("clock arguments in the cursor functions", n_c, 5)
+    for fn in (POS, GET):
+        bd = ctx.body(fn)
+        for k, (bi, t) in util.ordinal_keys([(bi, t) for bi, t in bd.calls() if (callee(t) or "").startswith("automerge::op_set2::op_set::OpSet::seek_")], lambda it: "%s|%s takes a clock" % (fn.split("::")[-1], callee(it[1]).split("::")[-1])):
+            has = any("automerge::clock::Clock" in ty for ty in t.get("argtys", []))
+            ctx.ob("Q4", k, has, t["sp"], "clocked lookup" if has else "a lookup variant without a clock parameter is used: resolving the cursor at given heads reads the current state here")
     seeks = [(bi, t) for bi, t in b.calls() if callee(t) == SEEK]
     ctx.floor("seek_list_opid calls in get_cursor_position_for", len(seeks), 2)
     first = [s for s in seeks if any(norm_fn(c_) == AM + "::op_cursor_to_opid" for c_ in b.provenance(s[1]["args"][2], through_calls=True).callees())]
